@@ -124,7 +124,7 @@ def run_task(prop, task_id, tier, seed):
 
     warnings.filterwarnings("ignore")
     os.environ.setdefault("JAX_PLATFORMS", "cpu")
-    sys.path[:0] = [p for p in (ROOT, "/repo") if p not in sys.path]
+    sys.path[:0] = [p for p in (ROOT, os.environ.get("VERIF_REPO", "/repo")) if p not in sys.path]
     ctx = TaskContext(prop, task_id, tier, seed)
     try:
         mod = importlib.import_module("checks." + prop)
@@ -158,7 +158,7 @@ def main(argv=None):
     a = ap.parse_args(argv)
     prop, tier = a.prop, a.tier
     seed = int(os.environ.get("VERIF_SEED", "0"))
-    sys.path[:0] = [p for p in (ROOT, "/repo") if p not in sys.path]
+    sys.path[:0] = [p for p in (ROOT, os.environ.get("VERIF_REPO", "/repo")) if p not in sys.path]
     t0 = time.time()
     if a.replay:
         return replay_file(prop, a.replay)
